@@ -119,14 +119,14 @@ def edit(rnd, m, history):
         if 'GLOBALV' in m['env'] and rnd.random() < .3:
             del m['env']['GLOBALV']
         else:
-            m['env']['GLOBALV'] = 'g%d' % rnd.randint(0, 3)
+            m['env']['GLOBALV'] = rnd.choice(['g%d', 'g%d', '/opt/g%d/bin:$PATH']) % rnd.randint(0, 3)
         return 'env-global'
     if k == 'env-named':
         e = m['envs'].setdefault(n, {})
         if 'NAMEDV' in e and rnd.random() < .3:
             del e['NAMEDV']
         else:
-            e['NAMEDV'] = 'n%d' % rnd.randint(0, 3)
+            e['NAMEDV'] = rnd.choice(['n%d', 'n%d', '/opt/n%d/bin:$PATH']) % rnd.randint(0, 3)
         return 'env-named'
     if k == 'opt-add':
         cand = [(o, v) for o, v in DOC_OPTS if o not in sec]
@@ -164,6 +164,10 @@ def run_case(spec):
         for _ in range(rnd.randint(1, 7)):
             lab = edit(rnd, m, [v['model'] for v in versions])
             versions.append({'label': lab, 'model': copy.deepcopy(m)})
+        rk = rng_for(spec['seed'], 'C12-kill', spec['idx'])
+        for v in versions[1:]:
+            if rk.random() < .3:
+                v['kill'] = rk.randint(0, 7)
     d = tempfile.mkdtemp(prefix='verif-c12-')
     nv = len(res.viol)
     try:
@@ -228,15 +232,32 @@ def _chain(versions, d, res):
             new_cfg = {x['name']: x for x in get_config(path)['watchers']}
             w.activate()
             k = w.kernel
+            # sometimes a worker dies (killed from outside) just before the request, and no periodic check has seen
+            # it yet: the reload must not take that for a reason to touch the healthy ones
+            killed = None
+            if ver.get('kill') is not None:
+                cands = sorted(p for n in NAMES for p in k.live(simhist.tag_of(n)))
+                if cands:
+                    killed = cands[ver['kill'] % len(cands)]
+                    k.kill(killed, 9, sender='ext')
+                    k._settle()
+                    res.obs['worker_killed_just_before_reloadconfig'] += 1
             before_pids = {n: set(k.live(simhist.tag_of(n))) for n in NAMES}
             l0 = len(k.log)
             box = {}
 
             @gen.coroutine
-            def reload():
+            def reload(killed=killed):
                 box['rep'] = yield w.call('reloadconfig', waiting=True)
                 yield w.settle(120)
                 yield w.advance(0.05)
+                box['after_reload'] = {n: set(k.live(simhist.tag_of(n))) for n in NAMES}
+                box['log_end'] = len(k.log)
+                if killed is not None:
+                    # the death is noticed by the next periodic check at the latest
+                    yield w.check()
+                    yield w.settle(120)
+                    yield w.advance(0.05)
                 box['view'] = view(w)
             w.run(reload)
             if w.stalled is not None:
@@ -248,7 +269,7 @@ def _chain(versions, d, res):
                               % (lab, str(rep)[:200]), labels=list(labels))
                 return
             after_pids = {n: set(k.live(simhist.tag_of(n))) for n in NAMES}
-            activity = [e for e in k.log[l0:] if e[1] in ('spawn', 'signal')]
+            activity = [e for e in k.log[l0:box.get('log_end')] if e[1] in ('spawn', 'signal')]
             fresh = fresh_view(path)
             w.activate()
             res.obs['versions_compared'] += 1
@@ -302,10 +323,11 @@ def _chain(versions, d, res):
                 a, b = prev_cfg[n], new_cfg[n]
                 if a == b:
                     res.obs['unchanged_watchers_judged'] += 1
-                    if before_pids[n] != after_pids[n]:
+                    ar = box.get('after_reload', after_pids)[n]      # before any periodic check replaced a dead one
+                    if before_pids[n] != ar:
                         res.violation('C12/unchanged-watcher-disturbed:' + lab,
                                       'watcher %s has the same effective section in both versions but its pids went '
-                                      'from %s to %s (edit %s)' % (n, sorted(before_pids[n]), sorted(after_pids[n]), lab))
+                                      'from %s to %s (edit %s)' % (n, sorted(before_pids[n]), sorted(ar), lab))
                 else:
                     a2, b2 = dict(a), dict(b)
                     a2.pop('numprocesses'), b2.pop('numprocesses')
